@@ -63,7 +63,7 @@ def first_density(c):
 
 def expansion_contract(cls, dims, T0, T1, T2):
     """The C03 contract for one shape: dims = cold x factor; area ~ factor^2; N x area conserved; path independent."""
-    c = solid(cls, dims, T0, T1, 0.02)
+    c = solid(cls, dims, T0, T1, 0.02 if NATIVE else sym_real("nd"))  # ANY number density (natively the material's own)
     try:
         f1 = c.getThermalExpansionFactor()
     except RuntimeError:
@@ -98,7 +98,7 @@ def expansion_contract(cls, dims, T0, T1, T2):
             assert eq(c.getDimension(k), dims[k] * f2)
 
 
-GEN = {"T0": (20.0, 30.0), "T1": (25.0, 600.0), "T2": (25.0, 600.0)}
+GEN = {"T0": (20.0, 600.0), "T1": (25.0, 600.0), "T2": (25.0, 600.0)}  # the input temperature is anywhere in the range too (components built hot)
 
 
 def D(**kw):
@@ -106,28 +106,29 @@ def D(**kw):
 
 
 def pos(*xs):
+    """(P) dimensions and multiplicities are not negative (ZERO is allowed)"""
     for x in xs:
-        assume(x > 0)
+        assume(x >= 0)
 
 
-@lemma(gen=dict(GEN, od=(0.5, 3.0), idf=(0.0, 0.9), mult=(1, 300)))
+@lemma(gen=dict(GEN, od=[0.0, 0.5, 1.0, 2.0, 3.0], idf=[0.0, 0.0, 0.3, 0.9, 1.0, 1.2], mult=(0, 300)))
 def circle(T0: float, T1: float, T2: float, od: float, idf: float, mult: int):
     pos(od, mult)
-    assume(0 <= idf and idf < 1)
+    assume(0 <= idf)
     expansion_contract(basic.Circle, D(od=od, id=od * idf, mult=mult), T0, T1, T2)
 
 
-@lemma(gen=dict(GEN, op=(0.5, 20.0), ipf=(0.0, 0.9), mult=(1, 300)))
+@lemma(gen=dict(GEN, op=[0.0, 0.5, 3.0, 20.0], ipf=[0.0, 0.0, 0.3, 0.9, 1.0, 1.2], mult=(0, 300)))
 def hexagon_shape(T0: float, T1: float, T2: float, op: float, ipf: float, mult: int):
     pos(op, mult)
-    assume(0 <= ipf and ipf < 1)
+    assume(0 <= ipf)  # the inner dimension may reach or exceed the outer one: a solid of negative area is refused loudly (ArithmeticError), the dimension clauses still hold
     expansion_contract(basic.Hexagon, D(op=op, ip=op * ipf, mult=mult), T0, T1, T2)
 
 
-@lemma(gen=dict(GEN, lo=(0.5, 20.0), wo=(0.5, 20.0), f=(0.0, 0.9), mult=(1, 30)))
+@lemma(gen=dict(GEN, lo=[0.0, 0.5, 3.0, 20.0], wo=[0.0, 0.5, 4.0, 20.0], f=[0.0, 0.0, 0.3, 0.9, 1.0, 1.2], mult=(0, 30)))
 def rectangle(T0: float, T1: float, T2: float, lo: float, wo: float, f: float, mult: int):
     pos(lo, wo, mult)
-    assume(0 <= f and f < 1)
+    assume(0 <= f)  # the inner dimension may reach or exceed the outer one: a solid of negative area is refused loudly (ArithmeticError), the dimension clauses still hold
     expansion_contract(basic.Rectangle, D(lengthOuter=lo, widthOuter=wo, lengthInner=lo * f, widthInner=wo * f, mult=mult), T0, T1, T2)
 
 
@@ -137,10 +138,10 @@ def solid_rectangle(T0: float, T1: float, T2: float, lo: float, wo: float, mult:
     expansion_contract(basic.SolidRectangle, D(lengthOuter=lo, widthOuter=wo, mult=mult), T0, T1, T2)
 
 
-@lemma(gen=dict(GEN, wo=(0.5, 20.0), f=(0.0, 0.9), mult=(1, 30)))
+@lemma(gen=dict(GEN, wo=[0.0, 0.5, 4.0, 20.0], f=[0.0, 0.0, 0.3, 0.9, 1.0, 1.2], mult=(0, 30)))
 def square(T0: float, T1: float, T2: float, wo: float, f: float, mult: int):
     pos(wo, mult)
-    assume(0 <= f and f < 1)
+    assume(0 <= f)  # the inner dimension may reach or exceed the outer one: a solid of negative area is refused loudly (ArithmeticError), the dimension clauses still hold
     expansion_contract(basic.Square, D(widthOuter=wo, widthInner=wo * f, mult=mult), T0, T1, T2)
 
 
@@ -174,10 +175,10 @@ def holed_square(T0: float, T1: float, T2: float, wo: float, holeOD: float, mult
     expansion_contract(cplx.HoledSquare, D(widthOuter=wo, holeOD=holeOD, mult=mult), T0, T1, T2)
 
 
-@lemma(gen=dict(GEN, od=(0.2, 1.0), idf=(0.0, 0.9), ap=(5.0, 40.0), hd=(1.0, 5.0), mult=(1, 30)))
+@lemma(gen=dict(GEN, od=(0.2, 1.0), idf=[0.0, 0.0, 0.3, 0.9, 1.0, 1.2], ap=(5.0, 40.0), hd=(1.0, 5.0), mult=(0, 30)))
 def helix(T0: float, T1: float, T2: float, od: float, idf: float, ap: float, hd: float, mult: int):
     pos(od, ap, hd, mult)
-    assume(0 <= idf and idf < 1)
+    assume(0 <= idf)  # the inner dimension may reach or exceed the outer one: a solid of negative area is refused loudly (ArithmeticError), the dimension clauses still hold
     expansion_contract(cplx.Helix, D(od=od, id=od * idf, axialPitch=ap, helixDiameter=hd, mult=mult), T0, T1, T2)
 
 
@@ -281,7 +282,7 @@ def linked_pair(od, clad, T0, Tf, Tg, fluidGap):
     return fuel, gap
 
 
-@lemma(gen=dict(T0=(20.0, 30.0), Tf=(25.0, 700.0), Tg=(25.0, 700.0), od=(0.5, 2.0), clad=(0.05, 0.5), hot=(0.4, 2.0)))
+@lemma(gen=dict(T0=(20.0, 600.0), Tf=(25.0, 700.0), Tg=(25.0, 700.0), od=(0.5, 2.0), clad=(0.05, 0.5), hot=(0.4, 2.0)))
 def hot_dimension_set_through_a_link_reads_back_on_both_components(T0: float, Tf: float, Tg: float, od: float, clad: float, hot: float, fluidGap: bool):
     """Component.setDimension(key, hot, retainLink=True, cold=False) on a LINKED dimension, the two components being of
     different materials (arbitrary laws P and Q, or a fluid) and at different temperatures: the hot value reads back
@@ -302,7 +303,7 @@ def hot_dimension_set_through_a_link_reads_back_on_both_components(T0: float, Tf
         pass
 
 
-@lemma(gen=dict(T0=(20.0, 30.0), Tf=(25.0, 700.0), Tg=(25.0, 700.0), T2=(25.0, 700.0), od=(0.5, 2.0), clad=(0.05, 0.5)))
+@lemma(gen=dict(T0=(20.0, 600.0), Tf=(25.0, 700.0), Tg=(25.0, 700.0), T2=(25.0, 700.0), od=(0.5, 2.0), clad=(0.05, 0.5)))
 def linked_dimension_follows_the_owner_at_the_owners_temperature(T0: float, Tf: float, Tg: float, T2: float, od: float, clad: float, fluidGap: bool):
     """the linked dimension is evaluated at the OWNER's temperature and material, not at the linking component's:
     components of different materials at different temperatures, then the owner alone changes temperature"""
